@@ -452,6 +452,11 @@ def regen_c17():
         py2coq_c17.regenerate(repo=core.REPO)
     except Exception as e:
         return 'py2coq_c17: %s: %s' % (type(e).__name__, e)
+    try:  # remove_poly (function and Signal method) around the np.polyfit oracle -> coq/gen/Gen_rmpoly.v
+        import py2coq_rmpoly
+        py2coq_rmpoly.regenerate(repo=core.REPO)
+    except Exception as e:
+        return 'py2coq_rmpoly: %s: %s' % (type(e).__name__, e)
     return None
 
 
